@@ -569,6 +569,9 @@ func (m *Machine) setupModels() {
 			return Tuple{Slice{Blob: &Blob{ID: id, Len: ln}}, nilErr()}
 		}
 		n := 2 + ci%3
+		if m.opt.FixedHdr {
+			n = 3 // C14: equal structs must have equal encoded lengths (A1)
+		}
 		id := m.newBlob("thrift", ci, nil, n)
 		return Tuple{Slice{V: blobBytes(id, n)}, nilErr()}
 	})
